@@ -50,6 +50,7 @@ structure PoolIn where
   inst : Nat := 1
   shots : Nat := 1
   rp : Option (String × Nat × String) := none   -- `rp:<kind>.<k>.<tail>` the provider is one of the repo's own over a written source
+  aggErr : Bool := false                -- the (mock) aggregator is planned to fail
   deriving Repr
 
 structure Plan where
@@ -114,6 +115,7 @@ def parsePool (spec : String) : PoolIn :=
     | ["rg", v] => { p with real := v != "-" }
     | ["blk", v] => { p with blk := if v == "-" then "" else v }
     | ["inst", v] => { p with inst := v.toNat?.getD 0 }
+    | ["agg", v] => { p with aggErr := v.endsWith ".err" }
     | ["shots", v] => { p with shots := v.toNat?.getD 0 }
     | ["rp", v] =>
       match v.splitOn "." with
@@ -156,7 +158,7 @@ def occurred (_pl : Plan) (o : Obs) (i : Nat) : List String :=
   | none => []
 
 def anyError (pl : Plan) (o : Obs) : Option String :=
-  ((List.range pl.pools.length).flatMap fun i => (occurred pl o i).map fun c => s!"p{i}.{c}").head?
+  ((List.range pl.pools.length).flatMap fun i => (occurred pl o i).map fun c => s!"p{i}.{c} failed").head?
 
 /-- how many ammo the schedules of the pool ask for -/
 def PoolIn.demand (p : PoolIn) : Nat := if p.per then p.inst * p.shots else (if p.inst == 0 then 0 else p.shots)
@@ -170,7 +172,7 @@ def brokenSource (pl : Plan) : Option String :=
       match p.rp with
       | some (kind, k, tail) =>
         if tail != "ok" && p.demand > k then
-          some s!"p{i}: its {kind} ammo source is broken ({tail}) after {k} ammo and its schedules ask for {p.demand}"
+          some s!"the {kind} ammo source of p{i} is broken ({tail}) after {k} ammo and its schedules ask for {p.demand}"
         else none
       | none => none
     | none => none).head?
@@ -275,7 +277,7 @@ def verdict (pl : Plan) (o : Obs) : String :=
     let swallowed : Option String :=
       if o.res == "ok" && !o.canc then (anyError pl o <|> brokenSource pl) else none
     match swallowed with
-    | some e => s!"fail:swallowed-error:run succeeded although {e} failed"
+    | some e => s!"fail:swallowed-error:run succeeded although {e}"
     | none =>
     let cause : Option String :=
       match o.res.splitOn ":" with
